@@ -1055,6 +1055,11 @@ def wl_uncertainty(spec, rec, cmp, envs, rng):
         ("3 km + {P} km", lambda p, Q, u: 3 * u["km"] + p * u["km"], "mid"),
         ("({P}) m", lambda p, Q, u: p * u["m"], "mid)"),
         ("2 m * {P}", lambda p, Q, u: 2 * u["m"] * p, "end"),
+        # the same literal written twice denotes two INDEPENDENT measurements (no correlation)
+        ("{P} m + {P} m", lambda p, Q, u: p * u["m"] + ufloat(p.n, p.s) * u["m"], "end"),
+        ("{P} m - {P} m", lambda p, Q, u: p * u["m"] - ufloat(p.n, p.s) * u["m"], "end"),
+        ("{P} m / ({P} s)", lambda p, Q, u: p * u["m"] / (ufloat(p.n, p.s) * u["s"]), "mid)"),
+        ("{P} * {P} m", lambda p, Q, u: p * ufloat(p.n, p.s) * u["m"], "mid"),
         # exponent applied to a parenthesised value: (N +/- S)eK  ==  (N +/- S) * 10**K
         ("{P}e2 m", lambda p, Q, u: p * 100 * u["m"], "paren-only"),
         ("{P}e+2 m", lambda p, Q, u: p * 100 * u["m"], "paren-only"),
